@@ -33,7 +33,8 @@ vars == <<hist, open, residue>>
 OneShot == {"read_slp", "read_slp_skip", "read_slp_hash", "read_slp_cut", "read_slp_bad",
             "write_slp", "write_slp_fail",
             "write_slpp", "write_slpp_fail_early", "write_slpp_fail_late",
-            "read_slpp", "read_slpp_skip", "read_slpp_cut"}
+            "read_slpp", "read_slpp_skip", "read_slpp_cut",
+            "arrow_roundtrip"}      \* frames -> Arrow struct array -> frames -> .slp bytes (C14)
 IncKinds == {"inc_begin", "inc_feed", "inc_finish", "inc_drop"}
 Kinds == OneShot \cup IncKinds
 
@@ -46,6 +47,7 @@ Pure(k, g) ==
       [] k = "read_slpp"      -> <<"game", g, "hash">>         \* the archive stores the hash it was written with
       [] k = "write_slp"      -> <<"slp", g>>                  \* C01: the bytes of g
       [] k = "write_slpp"     -> <<"slpp", g>>
+      [] k = "arrow_roundtrip" -> <<"slp", g>>                 \* C14: import(export(frames)) serialises to the file
       [] k \in {"read_slp_cut", "read_slp_bad", "read_slpp_cut", "write_slp_fail",
                 "write_slpp_fail_early", "write_slpp_fail_late"} -> <<"err">>
       [] OTHER -> <<"unit">>
